@@ -245,10 +245,13 @@ def _run(ctx, base):
             files = []
             targets = r.choice([[0], [0, 0], [1], [2], [0, 1], [254], [255], [256], [257], [300], [1, "bad"], ["bad"], [0, "bad"], [3, 0, "bad", 2],
                                 ["bad-latin1", 2], [1, "bad-selfinclude", 0], ["bad-latin1", "bad", 0, 3], [0, "bad-selfinclude"],
-                                ["same-message-twice"], [1, "same-message-twice", 0], ["same-message-twice", "same-message-twice"]])
-            forced = [[254], [255], [256], [257], ["bad"], ["bad-latin1", 2], [300], ["same-message-twice", 1]]
+                                ["same-message-twice"], [1, "same-message-twice", 0], ["same-message-twice", "same-message-twice"],
+                                ["gen-valid"], ["gen-valid", "gen-valid", 1], ["gen-valid", "gen-valid", "gen-valid"], [0, "gen-valid"]])
+            forced = [[254], [255], [256], [257], ["bad", "gen-valid"], ["bad-latin1", 2, "gen-valid"], [300], ["same-message-twice", 1, "gen-valid"]]
             if res.counters["cli:validate"] == 1 and ctx.shard < len(forced):
                 targets = forced[ctx.shard]  # boundary cases are always present, one per shard
+            if r.random() < 0.4 and "gen-valid" not in targets:
+                targets = list(targets) + ["gen-valid"]  # (a valid file adds no problem: the counts above stay what they are)
             for k2, t in enumerate(targets):
                 fn = os.path.join(wd, f"v{j}_{k2}.map")
                 if t == "bad-latin1":
@@ -259,6 +262,23 @@ def _run(ctx, base):
                 if t == "bad-selfinclude":
                     with open(fn, "w", encoding="utf-8") as f:
                         f.write(f'MAP\n  INCLUDE "{os.path.basename(fn)}"\nEND\n')
+                    files.append(fn)
+                    continue
+                if t == "gen-valid":
+                    # a schema-valid MAP drawn from the whole vocabulary (JOIN, GRID, COMPOSITE, SCALETOKEN ... blocks included)
+                    body = 'MAP\n  NAME "fallback"\nEND\n'
+                    for _try in range(5):
+                        nd = gen.gen_node(r, "map", gen.GenOpts(gated=ctx.gated, valid=True, p_key=0.1, p_child=0.9, decay=0.95, dup=0.0, max_objects=70))
+                        gen.apply_gates(nd, ctx.gated)
+                        text = render.render([nd]).text
+                        if "\r" not in text and "include" not in text.lower():
+                            body = text
+                            res.count("cli_validate_generated_valid_files")
+                            for x in nd.walk():
+                                res.seen("block-types-in-generated-valid-files", x.type)
+                            break
+                    with open(fn, "w", encoding="utf-8") as f:
+                        f.write(body)
                     files.append(fn)
                     continue
                 if t == "same-message-twice":
@@ -294,6 +314,13 @@ def _run(ctx, base):
                     want_lines.append(f"{fn} validated successfully")
                     ok_files += 1
             want_lines.append(f"{len(files)} file(s) validated ({ok_files} successfully)")
+            # "validated" means what the plain API says about the file: the positions the CLI records are bookkeeping
+            plain_problems = 0
+            for fn in files:
+                try:
+                    plain_problems += len(mappyfile.validate(mappyfile.open(fn), version if version else 8.2)) or 0
+                except Exception:
+                    plain_problems += 1
             case = {"part": "cli-validate", "targets": targets, "version": version, "problems": problems}
             res.seen("cases", h("validate", targets, version))
             res.seen("problem-counts", str(problems))
@@ -304,6 +331,9 @@ def _run(ctx, base):
                 res.violation("cli-validate-output-differs-from-api", case, {"n": [len(got_lines), len(want_lines)], "cli": got_lines[i:i + 2],
                                                                              "api": want_lines[i:i + 2]}, None)
             rc = p.returncode
+            if plain_problems != problems:
+                res.violation("cli-validate-counts-problems-the-plain-api-does-not-report", case, {"with_positions": problems, "plain": plain_problems,
+                                                                                                    "cli": got_lines[:3]}, None)
             if problems == 0 and rc != 0:
                 res.violation("cli-validate-nonzero-exit-without-problems", case, rc, 0)
             elif problems > 0 and rc == 0:
